@@ -116,3 +116,26 @@ def op_scopes(req):
 
 
 OPS['scopes'] = op_scopes
+
+
+def op_taint2(req):
+    """C09 on this interpreter: with a trigger in the source, name-touching options must not change the output."""
+    if PY2:
+        src = req['src'].encode('utf-8')
+    else:
+        src = req['src']
+    opts = dict(req['opts'])
+    off = dict(opts)
+    for k in ('rename_locals', 'rename_globals', 'hoist_literals'):
+        off[k] = False
+    try:
+        a = python_minifier.minify(src, **kwargs(opts))
+        b = python_minifier.minify(src, **kwargs(off))
+    except BaseException as e:
+        return {'domain': False, 'why': type(e).__name__}
+    if a != b:
+        return {'ok': False, 'signature': ['names-touched-despite-trigger', 'exec-statement'], 'observed': {'with': a[:800], 'without': b[:800]}}
+    return {'ok': True}
+
+
+OPS['taint2'] = op_taint2
